@@ -144,6 +144,10 @@ def run(rep, tier, seed, rng):
     now = panic_inventory.scan(core.REPO)
     from .. import inventory as _inv
     new, _gone = _inv.compare(inv, now)        # on normalised text: a renamed variable is not a new site
+    # a new site of a kind that has been reviewed (the class rules of panic_inventory.classify are the review:
+    # derive_builder with all fields set, clap-guaranteed arguments, ...) does not break the tie; one that matches
+    # no reviewed class (new slicing, a new unwrap on data from the project) does
+    new = [l for l in new if panic_inventory.classify(l) == "UNREVIEWED"]
     laze = core.build_impl(); driver = core.build_model()
     n_struct = 400 if tier == "quick" else 6000
     n_conf = 300 if tier == "quick" else 5000
